@@ -7,7 +7,7 @@ rc=0
 for c in $ids; do
   s=$(date +%s)
   ./check $c --tier $tier > out/run_${tier}_$c.log 2>&1; e=$?
-  echo "$c exit=$e $(( $(date +%s) - s ))s $(grep -v '^KNOWN' out/run_${tier}_$c.log | tail -1 | cut -c1-200)"
+  echo "$c exit=$e $(( $(date +%s) - s ))s $(grep "^\[$c\]" out/run_${tier}_$c.log | tail -1 | cut -c1-200)"
   grep '^VIOLATION\|signature=' out/run_${tier}_$c.log | head -8
   [ $e -ne 0 ] && rc=1
 done
